@@ -182,7 +182,26 @@ function genMutualEnv(rng) {
   return { names, env };
 }
 
+// pairs of different property names that a collation (`localeCompare`) treats as equal: canonically equivalent spellings,
+// ignorable characters, compatibility characters. The canonical order of names is the order of their code units
+const COLLATION_TWINS = [["caf\u00e9", "cafe\u0301"], ["id", "id\u200b"], ["\u212b", "\u00c5"], ["a", "a\u00ad"]];
+function genTwins(rng) {
+  const [k1, k2] = rng.pick(COLLATION_TWINS);
+  const t1 = genLeaf(rng), t2 = rng.chance(1, 2) ? genLeaf(rng) : [A("array"), genLeaf(rng)];
+  const extra = rng.chance(1, 2) ? [["z", genLeaf(rng)]] : [];
+  const mk = (order) => [A("object"), normProps(order), []];
+  const rt = mk([[k1, t1], [k2, t2], ...extra]), rt2 = mk(rng.chance(1, 2) ? [[k2, t2], [k1, t1], ...extra] : [...extra, [k2, t2], [k1, t1]]);
+  const wrap = rng.pick([(x) => x, (x) => [A("array"), x], (x) => [A("object"), [["p", x]], []]]);
+  const a = wrap(rt), b = wrap(rt2);
+  const vals = [];
+  for (let i = 0; i < 6; i++) vals.push(member(rng, a, [], 3));
+  for (let i = 0; i < 3; i++) vals.push(mutate(rng, vals[rng.below(6)], 3));
+  vals.push(randomValue(rng, 2));
+  return [A("h256"), A("same"), [A("prop-order")], [], a, [], b, vals.map(encVal)];
+}
+
 export function gen(rng, params, mode) {
+  if (rng.chance(1, 15)) return genTwins(rng);
   const mutual = rng.chance(1, 2);
   const { names, env } = mutual ? genMutualEnv(rng) : genEnv(rng);
   const rt = mutual && rng.chance(2, 3) ? [A("ref"), rng.pick(names)] : genRT(rng, 1 + rng.below(3), names);
